@@ -1006,7 +1006,7 @@ VARIANTS = [
     ('responder IO order swapped', 'bumble/smp.py', "                command.auth_req,\n                command.io_capability,\n                self.io_capability,\n", "                command.auth_req,\n                self.io_capability,\n                command.io_capability,\n", 'fire', 'C13.table'),
     ('authenticated always true with bonding', 'bumble/smp.py', "        authenticated = self.pairing_method != PairingMethod.JUST_WORKS\n", "        authenticated = self.pairing_method != PairingMethod.JUST_WORKS or self.mitm\n", 'fire', 'C13.auth-flag'),
     ('handler exception bypasses local failure', 'bumble/smp.py', "            self.send_pairing_failed(ErrorCode.UNSPECIFIED_REASON)\n\n    def on_smp_pairing_request_command(", "            self.send_command(SMP_Pairing_Failed_Command(reason=ErrorCode.UNSPECIFIED_REASON))\n\n    def on_smp_pairing_request_command(", 'fire', 'C13.fail-sym'),
-    ('responder slots mirrored again', 'bumble/smp.py', "            keys.ltk_central = peer_ltk_key\n            keys.ltk_peripheral = our_ltk_key\n", "            if self.is_initiator:\n                keys.ltk_central = peer_ltk_key\n                keys.ltk_peripheral = our_ltk_key\n            else:\n                keys.ltk_central = our_ltk_key\n                keys.ltk_peripheral = peer_ltk_key\n", 'fire', 'C13.slots'),
+    ('responder slots mirrored again', 'bumble/smp.py', '            if self.peer_ltk:\n                keys.ltk_central = PairingKeys.Key(\n                    value=self.peer_ltk,\n', '            if self.peer_ltk:\n                keys.ltk_central = PairingKeys.Key(\n                    value=self.peer_ltk if self.is_initiator else self.ltk,\n', 'fire', 'C13.slots'),
     ('responder tests initiator mask for ID', 'bumble/smp.py', "            if self.responder_key_distribution & KeyDistribution.ID_KEY:\n", "            if self.initiator_key_distribution & KeyDistribution.ID_KEY:\n", 'fire', 'C13.distribution'),
     ('pair awaits bare', 'bumble/smp.py', "        await self.connection.cancel_on_disconnection(self.pairing_result)\n", "        await self.pairing_result\n", 'fire', 'C13.waits'),
     ('benign: debug text', 'bumble/smp.py', "        logger.debug('pairing complete')\n", "        logger.debug('pairing completed')\n", 'silent', ''),
